@@ -15,8 +15,6 @@ immutable ast.TernaryExpr.Operator ast.TernaryExpr.Lhs ast.TernaryExpr.Mid ast.T
 spec clsOf(ty ddptypes.Type) int :=
   ddptypes.norm(ty) == ddptypes.ZAHL ? 1 : (ddptypes.norm(ty) == ddptypes.KOMMAZAHL ? 2 : (ddptypes.norm(ty) == ddptypes.BYTE ? 3 :
   (ddptypes.norm(ty) == ddptypes.WAHRHEITSWERT ? 4 : (ddptypes.norm(ty) == ddptypes.BUCHSTABE ? 5 : (ddptypes.norm(ty) == ddptypes.TEXT ? 6 : 0)))))
-spec numericCls(k int) bool := k == 1 || k == 2 || k == 3
-spec intCls(k int) bool := k == 1 || k == 3
 
 // every error path of the checker goes through err: the module is marked faulty (and stays so)
 func (*Typechecker).err [C04, C07]
@@ -58,20 +56,32 @@ func (*Typechecker).findOverload
   ensures t.Module.Ast.Faulty == old(t.Module.Ast.Faulty) && t.latestReturnedType == old(t.latestReturnedType)
 
 // --- C04 "operand of a wrong type" / C02 checker side, unary operators ---
-spec admissibleUn(op ast.UnaryOperator, k int) bool :=
-     ((op == ast.UN_ABS || op == ast.UN_NEGATE) && numericCls(k))
-  || (op == ast.UN_NOT && k == 4)
-  || (op == ast.UN_LOGIC_NOT && intCls(k))
-spec resultUn(op ast.UnaryOperator, k int) int :=
-  (op == ast.UN_ABS || op == ast.UN_NEGATE) ? (k == 3 ? 1 : k) : (op == ast.UN_NOT ? 4 : k)
-
 func (*Typechecker).VisitUnaryExpr [C04, C02]
   cases expr.Operator in {ast.UN_ABS, ast.UN_NEGATE, ast.UN_NOT, ast.UN_LOGIC_NOT}
   requires t != nil && t.Module != nil && t.Module.Ast != nil && t.panicMode != nil && expr != nil
   at LS after call findOverload
   // an inadmissible operand is reported
-  ensures reached(LS) && overload == nil && !admissibleUn(expr.Operator, clsOf(rhs)) ==> t.Module.Ast.Faulty
+  ensures reached(LS) && overload == nil && !ast.admissibleUn(expr.Operator, clsOf(rhs)) ==> t.Module.Ast.Faulty
   // an admissible one is not, and the result has the type the language rules give
-  ensures reached(LS) && overload == nil && admissibleUn(expr.Operator, clsOf(rhs)) ==> t.Module.Ast.Faulty == at(LS, t.Module.Ast.Faulty)
-  ensures reached(LS) && overload == nil && admissibleUn(expr.Operator, clsOf(rhs)) ==> clsOf(t.latestReturnedType) == resultUn(expr.Operator, clsOf(rhs))
+  ensures reached(LS) && overload == nil && ast.admissibleUn(expr.Operator, clsOf(rhs)) ==> t.Module.Ast.Faulty == at(LS, t.Module.Ast.Faulty)
+  ensures reached(LS) && overload == nil && ast.admissibleUn(expr.Operator, clsOf(rhs)) ==> clsOf(t.latestReturnedType) == ast.resultUn(expr.Operator, clsOf(rhs))
+
+// --- binary operators on numbers ---
+func (*Typechecker).VisitBinaryExpr [C04, C02]
+  cases expr.Operator in {ast.BIN_XOR, ast.BIN_PLUS, ast.BIN_MINUS, ast.BIN_MULT, ast.BIN_DIV, ast.BIN_MOD, ast.BIN_LOGIC_AND, ast.BIN_LOGIC_OR, ast.BIN_LOGIC_XOR, ast.BIN_LEFT_SHIFT, ast.BIN_RIGHT_SHIFT, ast.BIN_LESS, ast.BIN_GREATER, ast.BIN_LESS_EQ, ast.BIN_GREATER_EQ}
+  requires t != nil && t.Module != nil && t.Module.Ast != nil && t.panicMode != nil && expr != nil
+  at LS after call findOverload
+  ensures reached(LS) && overload == nil && !ast.admissibleBin(expr.Operator, clsOf(lhs), clsOf(rhs)) ==> t.Module.Ast.Faulty
+  ensures reached(LS) && overload == nil && ast.admissibleBin(expr.Operator, clsOf(lhs), clsOf(rhs)) ==> t.Module.Ast.Faulty == at(LS, t.Module.Ast.Faulty)
+  ensures reached(LS) && overload == nil && ast.admissibleBin(expr.Operator, clsOf(lhs), clsOf(rhs)) ==>
+            clsOf(t.latestReturnedType) == ast.resultBin(expr.Operator, clsOf(lhs), clsOf(rhs))
+
+// --- zwischen ---
+func (*Typechecker).VisitTernaryExpr [C04, C02]
+  cases expr.Operator in {ast.TER_BETWEEN}
+  requires t != nil && t.Module != nil && t.Module.Ast != nil && t.panicMode != nil && expr != nil
+  at LS after call findOverload
+  ensures reached(LS) && overload == nil && !(ast.numericCls(clsOf(lhs)) && ast.numericCls(clsOf(mid)) && ast.numericCls(clsOf(rhs))) ==> t.Module.Ast.Faulty
+  ensures reached(LS) && overload == nil && ast.numericCls(clsOf(lhs)) && ast.numericCls(clsOf(mid)) && ast.numericCls(clsOf(rhs)) ==>
+            t.Module.Ast.Faulty == at(LS, t.Module.Ast.Faulty) && clsOf(t.latestReturnedType) == 4
 @*/
